@@ -65,6 +65,15 @@ def _u_scaled(cname, sym, factor, base_sym):
     return f
 
 
+def _u_scaled_noref(cname, sym, factor, base_sym):
+    def f(L):
+        cls = L.classes[cname]
+        base = L.units[base_sym][0]
+        u = cls.new_unit(sym, sym + ' name', C.num(factor) * base)
+        L.units[sym] = (u, cname, None)
+    return f
+
+
 def _u_derive(cname, sym, base_syms, exps, explicit_symbol=True):
     def f(L):
         cls = L.classes[cname]
@@ -128,6 +137,9 @@ VALID = [
     ('unit-sq-term3', ('DA2', 'a1'), _u_term('DA2', 'sq3', [('a0', -1), ('a1', 3), ('a0', 0), ('a1', -1), ('a0', 1)])),
     ('unit-w1', ('DW',), _u_plain('DW', 'w1')),
     ('unit-w2', ('DW',), _u_plain('DW', 'w 2')),
+    # units of a reference-less type declared as a multiple of another of its units (scale not comparable: None)
+    ('unit-w-alias', ('DW', 'w1'), _u_scaled_noref('DW', 'w1a', '1', 'w1')),
+    ('unit-w-multiple', ('DW', 'w1'), _u_scaled_noref('DW', 'w1m', '5', 'w1')),
     ('unit-q1', ('DQ',), _u_scaled('DQ', 'q1', '8', 'q0')),
     ('unit-nonascii', ('DA',), _u_scaled('DA', 'µa·x/²', '0.001', 'a0')),
 ]
@@ -298,11 +310,13 @@ def produced_names(step_name):
             'type-quantized': 'DQ', 'type-ABB': 'DABB', 'unit-a1': 'a1', 'unit-a2': 'a2', 'unit-b1': 'b1',
             'unit-ab-derive': 'a1pb1', 'unit-ab-derive-gensym': 'a1/b0', 'unit-ab-term': 'abt',
             'unit-ab-term-num': 'abn', 'unit-sq-derive': 'a1²x', 'unit-sq-term3': 'sq3', 'unit-w1': 'w1',
-            'unit-w2': 'w 2', 'unit-q1': 'q1', 'unit-nonascii': 'µa·x/²'}[step_name]
+            'unit-w2': 'w 2', 'unit-q1': 'q1', 'unit-nonascii': 'µa·x/²', 'unit-w-alias': 'w1a',
+            'unit-w-multiple': 'w1m'}[step_name]
 
 
 # the closure of prerequisites, in a valid order
-PREREQ_ORDER = ['type-A', 'type-B', 'type-AperB', 'type-Asq', 'type-noref', 'type-quantized', 'type-AperW', 'unit-a1', 'unit-b1']
+PREREQ_ORDER = ['type-A', 'type-B', 'type-AperB', 'type-Asq', 'type-noref', 'type-quantized', 'type-AperW', 'unit-a1', 'unit-b1',
+                'unit-w1']
 
 
 def ensure(L, names):
@@ -370,6 +384,16 @@ def check_directory(E, L, a, tag):
             qs = Quantity('%s %s' % (a, sym))
             E.check(type(qs) is cls and qs.unit is u, 'string-factory-dispatches-to-unit-type',
                     key='dir:string-factory:' + tag, info=sym)
+        # comparing two units of one type answers (never raises), and a unit equals itself
+        for sym2, (u2, cname2, _) in L.units.items():
+            if cname2 == cname:
+                try:
+                    eq = (u == u2)
+                except Exception as e:
+                    E.fail('unit-equality-answers', key='dir:unit-eq-raises:%s:%s' % (type(e).__name__, tag), info=[sym, sym2])
+                else:
+                    E.check(eq is True if u is u2 else isinstance(eq, bool), 'unit-equality-answers',
+                            key='dir:unit-eq:' + tag, info=[sym, sym2])
         if scale is not None:
             ref = cls.ref_unit
             E.check(ref is not None, 'has-reference-unit')
